@@ -203,6 +203,16 @@ where
         }
     }
 
+    /// Verification hook (only with `--cfg pdatastructs_verif`): all tracked entries as
+    /// `(element, f, delta)`.
+    #[cfg(pdatastructs_verif)]
+    pub fn verif_entries(&self) -> Vec<(T, usize, usize)> {
+        self.known
+            .iter()
+            .map(|(k, v)| (k.clone(), v.f, v.delta))
+            .collect()
+    }
+
     /// Epsilon error.
     pub fn epsilon(&self) -> f64 {
         self.epsilon
